@@ -1,5 +1,7 @@
 (* C02 — document frequency, document lengths and corpus statistics match the corpus.  Statement-only file. *)
-From SA Require Import Base.Prelude Index.Index Index.Index_Spec Index.Index_Proofs3.
+From Coq Require Import ZArith Reals.
+From Flocq Require Import Core IEEE754.BinarySingleNaN IEEE754.Binary.
+From SA Require Import Base.Prelude Index.Index Index.Index_Spec Index.Index_Proofs3 Score.BM25 Score.AvgLen.
 Open Scope N_scope.
 
 Theorem C02_docfreq_is_count : forall docs bs, wf_docs docs ->
@@ -22,3 +24,21 @@ Example C02_nonvacuous :
   | AOk ix => doclengths ix = [0;3;0;0;1] /\ docfreq ix 1 = AOk 1 /\ docfreq ix 7 = AOk 0
   | _ => False end.
 Proof. vm_compute. repeat split. Qed.
+
+(* the AVERAGE length that scoring uses (a binary32): whenever the corpus has fewer than 2^24 tokens and rows, ANY
+   bracketing of the float32 additions of the lengths (sequential, pairwise, numpy's blocked scheme, with zero seeds of
+   either sign) is exact, and the average is the correctly rounded mean token count: relative error <= 2^-24, and it is 0
+   exactly for an all-empty corpus.  (Beyond 2^24 tokens numpy's float32 accumulator rounds: a 2-ulp witness is recorded
+   in Score/AvgLen.v; outside this theorem.) *)
+Theorem C02_average_is_rounded_mean : forall ix : sindex,
+  Forall (fun l => (l <= 262143)%N) (doclengths ix) ->
+  (total_len ix < 16777216)%N -> (0 < corpus_size ix < 16777216)%N ->
+  B2R 24 128 (index_avg ix) = round radix2 (FLT_exp (-149) 24) ZnearestE (mean_len ix) /\
+  is_finite 24 128 (index_avg ix) = true /\
+  ((0 < total_len ix)%N -> (Rabs (B2R 24 128 (index_avg ix) - mean_len ix) <= bpow radix2 (-24) * mean_len ix)%R) /\
+  (is_zero32 (index_avg ix) = true <-> total_len ix = 0%N).
+Proof.
+  intros ix H1 H2 H3. destruct (index_avg_is_rounded_mean ix H1 H2 H3) as (_ & _ & _ & A & B & C & D).
+  repeat split; try assumption; apply D.
+Qed.
+Print Assumptions C02_average_is_rounded_mean.
